@@ -267,6 +267,27 @@ class CustBase:
     def __repr__(self):
         return f'{type(self).__name__}({self.children!r}, {self.meta}, {self.eb})'
 
+    def _entries(self):
+        if self.eb[0] == 2:
+            return [real_key(k) for k in self.eb[1:]]
+        return list(range(len(self.children)))
+
+    def __getitem__(self, entry):
+        # children are addressed by their declared entry (first occurrence), else by position
+        es = self._entries()
+        for i, e in enumerate(es):
+            if type(e) is type(entry) and e == entry:
+                return self.children[i]
+        raise KeyError(entry)
+
+    def __getattr__(self, name):
+        if name in ('children', 'meta', 'eb'):
+            raise AttributeError(name)
+        try:
+            return self[name]
+        except KeyError:
+            raise AttributeError(name) from None
+
 
 NCUST = 6
 CUST = [type(f'Cust{i}', (CustBase,), {}) for i in range(NCUST)]
